@@ -4,3 +4,4 @@ import PyhfGen.Infer
 import PyhfGen.Model
 import PyhfGen.Prob
 import PyhfGen.Ws
+import PyhfGen.Config
